@@ -353,7 +353,7 @@ pub fn run(e: &'static Engine) {
          frame centre. Non-trivial: default placement (exhaustive) or >= 2 overrides; distinct by configuration.",
     );
     e.extend_rule("part overrides_through_wasm; sizes up to 1.6 x canvas and gaps up to 0.8 x canvas; the raster cross-check samples every cell whose centre lies outside frame and image.");
-    e.assume("requested sizes are >= 1 module (smaller frames can become negative after the half-module alignment adjustment; outside the stated domain)");
+    e.assume("requested sizes are >= 1 module, or smaller together with a gap >= 1 (without a gap a sub-module frame can become negative after the half-module alignment adjustment; outside the stated domain)");
     crate::engine::run_regress(e, &|c, o| replay(e, c, o));
     // exhaustive defaults; side(v) monotone per (shape, margin)
     let mut jobs: Vec<Job> = Vec::new();
@@ -391,9 +391,17 @@ pub fn run(e: &'static Engine) {
                         if present[1] { prop_oneof![5 => real(0.0, 6.0), 1 => real(6.0, 0.8 * s_total)].prop_map(Some).boxed() } else { Just(None).boxed() },
                         if present[2] { (real(0.0, s_total), real(0.0, s_total)).prop_map(Some).boxed() } else { Just(None).boxed() },
                     )
-                        .prop_map(move |(size_o, gap, pos)| Case {
-                            version: v,
-                            cfg: SvgCfg { margin, image: Some("logo.png".into()), image_bg_shape: shape, image_size: size_o, image_gap: gap, image_position: pos, warm, order, ..SvgCfg::default() },
+                        .prop_map(move |(size_o, gap, pos)| {
+                            // sizes below one module are requests like any other as long as the gap keeps the frame
+                            // positive (gap >= 1): one sized case in eight is scaled down into (0.05, 1)
+                            let size_o = match (size_o, gap) {
+                                (Some(s), Some(g)) if g >= 1.0 && (s * 1000.0) as u64 % 8 == 0 => Some((s.fract() * 0.95 + 0.05).min(0.999)),
+                                (s, _) => s,
+                            };
+                            Case {
+                                version: v,
+                                cfg: SvgCfg { margin, image: Some("logo.png".into()), image_bg_shape: shape, image_size: size_o, image_gap: gap, image_position: pos, warm, order, ..SvgCfg::default() },
+                            }
                         })
                 });
             jc.run_prop(1 << 20, &strat, total / shards, to_json, |c, o| {
